@@ -1999,7 +1999,18 @@ impl OffsetConflict {
             Fold { before, after }
                 if is_equal(given, before) || is_equal(given, after) =>
             {
-                let kind = Unambiguous { offset: given };
+                // Use the time zone's own offset and not the one given: the
+                // given offset may only be equal to it after rounding (an
+                // offset with non-zero seconds is written rounded to the
+                // nearest minute).
+                let offset = if given == after {
+                    after
+                } else if is_equal(given, before) {
+                    before
+                } else {
+                    after
+                };
+                let kind = Unambiguous { offset };
                 AmbiguousTimestamp::new(dt, kind)
             }
             _ => amb,
@@ -2071,8 +2082,18 @@ impl OffsetConflict {
                     tzname = tz.diagnostic_name(),
                 ))
             }
-            Fold { .. } => {
-                let kind = Unambiguous { offset: given };
+            Fold { before, after } => {
+                // As in `resolve_via_prefer`: use the matching offset of the
+                // time zone, which the given offset might equal only after
+                // rounding.
+                let offset = if given == after {
+                    after
+                } else if is_equal(given, before) {
+                    before
+                } else {
+                    after
+                };
+                let kind = Unambiguous { offset };
                 Ok(AmbiguousTimestamp::new(dt, kind).into_ambiguous_zoned(tz))
             }
         }
